@@ -25,6 +25,9 @@ clauses
   seed-differs              different seeds => different step-0 velocities (Temp > 0) / different Langevin trajectories
   supplied-step0            supplied velocities are the step-0 /velocities row and the post-initialize molecule.velocities, bitwise
   supplied-seed             the seed has no effect on an NVE run with supplied velocities (bitwise equal HDF5)
+  supplied-seed-history     stochastic engine (Langevin, damped XL-BOMD, surface hopping) started from preset velocities: the same seed
+                            gives bitwise identical HDF5 after two different RNG histories, and (seed-differs) another seed after the
+                            SAME history gives a different trajectory
   run-raised                a run in the quantifier's range must not raise
 """
 import numpy as np
@@ -41,7 +44,7 @@ ASSUMPTIONS = ["float64 CPU, one torch thread, runs of one case execute in one p
                "n_dof rule is the documented one (docs/source/bomd.rst: 3 / 6 constraints, linear molecules not auto-detected; "
                "Langevin keeps 3N)", "atomic masses of the shipped table are the property's given"]
 REQUIRED_MONITORS = ["md_runs", "draws_checked", "zero_com_calls", "zero_com_nontrivial", "digest_pairs", "supplied_checked",
-                     "padding_rows_checked", "linear_molecules"]
+                     "padding_rows_checked", "linear_molecules", "stochastic_supplied"]
 CASE_TIMEOUT = 600.0
 BUDGET_S = {"quick": 230, "thorough": 1600}
 
@@ -73,6 +76,11 @@ def gen_cases(tier, seed):
                       "remove_com": [None, None, ["linear", 1], ["angular", 1], ["linear", 2]][(i // 5) % 5],
                       "seeds": [int(g.integers(0, 10 ** 6)), int(g.integers(0, 10 ** 6))], "steps": 2 if tier == "quick" else 3, "dt": [0.5, 0.2][i % 2],
                       "geom_seed": int(g.integers(0, 2 ** 31))})
+    for i in range(1 if tier == "quick" else 8):
+        cases.append({"kind": "supplied", "mols": [["CH2O"], ["CH2O", "CH2O"]][i % 2], "engine": "sh", "method": "AM1", "Temp": 50.0,
+                      "field_T": 300.0, "variant": variants[i % 4], "remove_com": None,
+                      "seeds": [int(g.integers(0, 10 ** 6)), int(g.integers(0, 10 ** 6))], "steps": 2, "dt": 0.2,
+                      "geom_seed": 2 * int(g.integers(0, 2 ** 30))})
     return cases
 
 
@@ -85,12 +93,22 @@ def _engine(case):
         return "xl", None, {"k": 3}
     if e == "langevin":
         return "langevin", 15.0, None
+    if e == "sh":
+        return "sh", 15.0, None
     return "basic", None, None
+
+
+def _sett(case):
+    from vlib import run
+
+    if case["engine"] == "sh":
+        return run.settings(case["method"], eps=EPS, converger=(2,), excited={"n_states": 2, "method": "cis", "tolerance": 1e-7})
+    return run.settings(case["method"], eps=EPS, converger=(2,))
 
 
 def _ndof_rule(engine, nat, rc):
     c = 0.0 if rc is None else (6.0 if str(rc[0]).lower() == "angular" else 3.0)
-    if engine in ("langevin", "xl-damped"):
+    if engine in ("langevin", "xl-damped", "sh"):
         c = 0.0
     return 3.0 * nat - c
 
@@ -353,7 +371,7 @@ def _draw(case):
 
     acc = _Acc()
     S, C, Zs, g = _system(case)
-    sett = run.settings(case["method"], eps=EPS, converger=(2,))
+    sett = _sett(case)
     s0 = case["seed"]
     with env.Scratch("c13") as d:
         A = _one_run(case, S, C, sett, d + "/A", s0)
@@ -401,22 +419,31 @@ def _supplied(case):
                                          net_angular=var in ("net-angular", "both")) for s_, c_ in zip(S, C)])
     if var == "all-zero":
         V = np.zeros_like(V)
-    sett = run.settings(case["method"], eps=EPS, converger=(2,))
+    sett = _sett(case)
+    eng = case["engine"]
+    stochastic = eng in ("langevin", "xl-damped", "sh") and case["Temp"] > 0.0
     with env.Scratch("c13") as d:
         A = _one_run(case, S, C, sett, d + "/A", case["seeds"][0], velocities=V)
-        B = _one_run(case, S, C, sett, d + "/B", case["seeds"][1], velocities=V, preconsume=17)
-    called_on_supplied = sum(1 for r in (A, B) for e in r["events"] if e["supplied_init"])
+        if stochastic:
+            # same seed after another RNG history (B), another seed after the SAME history as A (Cc)
+            B = _one_run(case, S, C, sett, d + "/B", case["seeds"][0], velocities=V, preconsume=17)
+            Cc = _one_run(case, S, C, sett, d + "/C", case["seeds"][1], velocities=V)
+        else:
+            B = _one_run(case, S, C, sett, d + "/B", case["seeds"][1], velocities=V, preconsume=17)
+            Cc = None
+    runs = [("A", A), ("B", B)] + ([("C", Cc)] if Cc is not None else [])
+    called_on_supplied = sum(1 for _, r in runs for e in r["events"] if e["supplied_init"])
     mech = "user-velocities-com-stripped" if called_on_supplied else None
-    for tag, r in (("A", A), ("B", B)):
+    for tag, r in runs:
         if r["error"]:
             acc.flag("run-raised", True, {"run": tag, "error": r["error"][:400], "variant": var}, mech=mech)
         else:
             acc.mon["md_runs"] += 1
-    if A["error"] or B["error"]:
+    if any(r["error"] for _, r in runs):
         return {"nontrivial": False, "violations": acc.viol, "margins": acc.margins, "monitors": acc.mon, "cells": [],
-                "obs": {"errors": [A["error"], B["error"]], "zero_com_on_supplied_init": called_on_supplied}}
+                "obs": {"errors": [r["error"] for _, r in runs], "zero_com_on_supplied_init": called_on_supplied}}
     ok = True
-    for tag, r in (("A", A), ("B", B)):
+    for tag, r in runs:
         ok &= _step0(acc, case, Zs, r, tag, drawn=False)
         _check_padding(acc, S, C, r, tag)
         _check_events(acc, r, tag)
@@ -434,15 +461,20 @@ def _supplied(case):
             acc.flag("supplied-step0", not np.array_equal(row, V[k, :len(Zr)]),
                      {"where": "/velocities row 0", "run": tag, "mol": k, "variant": var, "max_abs_diff": diff}, mech=mech)
             acc.mon["supplied_checked"] += 1
-    eng = case["engine"]
-    deterministic = eng in ("basic", "xl") or case["Temp"] == 0.0
-    if deterministic:
+    if not stochastic:
         acc.flag("supplied-seed", A["digest"] != B["digest"], {"seeds": case["seeds"], "engine": eng})
         acc.mon["digest_pairs"] += 1
-    elif ok:
-        same = all(np.array_equal(A["h5"][k]["velocities"][-1], B["h5"][k]["velocities"][-1]) for k in range(len(Zs)))
-        acc.flag("seed-differs", same, {"seeds": case["seeds"], "engine": eng, "what": "thermostatted trajectory"})
+    else:
+        acc.flag("supplied-seed-history", A["digest"] != B["digest"],
+                 {"seed": case["seeds"][0], "engine": eng, "what": "stochastic engine, preset velocities, same seed, two RNG histories",
+                  "digests_A": A["digest"], "digests_B": B["digest"]})
         acc.mon["digest_pairs"] += 1
+        acc.mon["stochastic_supplied"] += 1
+        if ok:
+            same = all(np.array_equal(A["h5"][k]["velocities"][-1], Cc["h5"][k]["velocities"][-1]) for k in range(len(Zs)))
+            acc.flag("seed-differs", same, {"seeds": case["seeds"], "engine": eng,
+                                            "what": "stochastic trajectory from preset velocities, same RNG history"})
+            acc.mon["digest_pairs"] += 1
     acc.cells.append("supplied/%s/%s/rc-%s/%s" % (eng, var, case["remove_com"][0] if case["remove_com"] else "none",
                                                   "batch" if len(Zs) > 1 else "single"))
     return {"nontrivial": bool(ok), "violations": acc.viol, "margins": acc.margins, "monitors": acc.mon, "cells": acc.cells,
